@@ -4,20 +4,20 @@
 (* Text = sequence of code points.  Contents:                              *)
 (*  - Utf8(cps): UTF-8 encoding by integer arithmetic                      *)
 (*  - PctBytes(text): the bytes a component text denotes (every well-      *)
-(*    formed %XX decoded, everything else taken as is)                     *)
+(*    formed percent-XX decoded, everything else taken as is)                     *)
 (*  - Split(text): the generic splitter of RFC 3986 Appendix B plus        *)
 (*    authority -> userinfo / host / port, path -> segments, query ->      *)
 (*    pairs on "&" ("+" is a blank in form-urlencoded data)                *)
 (*  - Legal*(text): each character is allowed where the splitter puts it   *)
-(*    and every "%" starts a %XX escape                                    *)
+(*    and every percent sign starts a percent-XX escape                                    *)
 (***************************************************************************)
 EXTENDS Naturals, Integers, Sequences, FiniteSets, SequencesExt
 
 RECURSIVE Utf8(_)
 Utf8One(c) == IF c < 128 THEN <<c>>
-              ELSE IF c < 2048 THEN <<192 + c \div 64, 128 + c % 64>>
-              ELSE IF c < 65536 THEN <<224 + c \div 4096, 128 + (c \div 64) % 64, 128 + c % 64>>
-              ELSE <<240 + c \div 262144, 128 + (c \div 4096) % 64, 128 + (c \div 64) % 64, 128 + c % 64>>
+              ELSE IF c < 2048 THEN <<192 + (c \div 64), 128 + (c % 64)>>
+              ELSE IF c < 65536 THEN <<224 + (c \div 4096), 128 + ((c \div 64) % 64), 128 + (c % 64)>>
+              ELSE <<240 + (c \div 262144), 128 + ((c \div 4096) % 64), 128 + ((c \div 64) % 64), 128 + (c % 64)>>
 Utf8(s) == IF s = <<>> THEN <<>> ELSE Utf8One(Head(s)) \o Utf8(Tail(s))
 
 IsHex(c) == (c >= 48 /\ c <= 57) \/ (c >= 65 /\ c <= 70) \/ (c >= 97 /\ c <= 102)
@@ -48,7 +48,6 @@ Sub(t, a, b) == SubSeq(t, a, b)
 RECURSIVE SplitOn(_, _)
 SplitOn(t, c) == LET i == IndexOf(t, {c}, 1) IN IF i = 0 THEN <<t>> ELSE <<Sub(t, 1, i - 1)>> \o SplitOn(Sub(t, i + 1, Len(t)), c)
 
-(* Appendix B: ^(([^:/?#]+):)?(//([^/?#]*))?([^?#]*)(\?([^#]*))?(#(.*))? ; absent parts are <<>> wrapped as optional *)
 Split(t) ==
   LET d == IndexOf(t, {58, 47, 63, 35}, 1)
       hasScheme == d > 1 /\ t[d] = 58
